@@ -51,6 +51,11 @@ RULES = {
         "every array pushed into _elements/_indices is paired, in order, with a push of the same extent into "
         "_elements_size/_indices_size (allocate_memory<T>(E) <-> E; X.elements<P>() <-> X.size<P>()). Broken -> Deep/Weak "
         "clone, cross-type convert and serialisation copy the wrong number of entries (heap overrun or truncated copy).", 80),
+    "C20.size-vector-length": (
+        "at every normal exit _elements_size/_indices_size has exactly as many entries as _elements/_indices (lengths tracked "
+        "symbolically through clear/assign/move/push_back and counting loops): a clear/assign/move of one vector must be matched on "
+        "its partner before the next push. Broken -> slot i of the size vector describes another array: format/clone/copy/serialize "
+        "run over a wrong extent (heap overflow when a matrix is re-assigned a layout with fewer non-zeros).", 200),
     "C20.pool-release": (
         "MemoryPool::release_memory looks the address up, frees and erases the entry exactly when the counter is 1 and "
         "decrements it by one otherwise.", 4),
@@ -389,21 +394,29 @@ def container_rules(ck, fam, prefix="C20."):
     nfun = 0
     seen_fail = set()
     for fn in fam.functions():
-        it = L.Interp(fam, fn, summaries=summaries).run()
-        if not it.touched and not it.unknown:
+        cases = L.interpret_cases(fam, fn, summaries)
+        if not any(it.touched or it.unknown for _, it in cases):
             continue
         nfun += 1
         key = L.fkey(fn)
-        for u in it.unknown:
-            ck.incomplete(prefix + "exit-state", "%s (%s): %s" % (key, fn.loc, u))
-        for (r, sub, ok, det, line) in it.obligations + L.exit_obligations(it):
+        merged = {}
+        for label, it in cases:
+            for u in it.unknown:
+                ck.incomplete(prefix + "exit-state", "%s (%s): %s" % (key, fn.loc, u))
+            for (r, sub, ok, det, line) in it.obligations + L.exit_obligations(it):
+                k = (r, sub, line)
+                if label and not ok:
+                    det = "[%s] %s" % (label, det)
+                if k not in merged or (merged[k][0] and not ok):
+                    merged[k] = (ok, det)
+        for (r, sub, line), (ok, det) in merged.items():
             if not ok:
                 # the same source-level instance seen through several template instantiations: report once
                 if (r, key, sub) in seen_fail:
                     continue
                 seen_fail.add((r, key, sub))
-            ck.ob(prefix + r, "%s/%s" % (key, sub), ok, det, fn.file, line,
-                  sample={"function": fn.full, "instance": sub, "detail": det} if r in ("exit-state", "release-guard", "increase-once") else None)
+            ck.ob(prefix + r, "%s/%s" % (key, sub), ok, det, fn.file, line, trivial=det.startswith("undecided"),
+                  sample={"function": fn.full, "instance": sub, "detail": det} if r in ("exit-state", "release-guard", "increase-once", "size-vector-length") else None)
         obs, unknown = L.pair_pushes(fam, fn)
         for u in unknown:
             ck.incomplete(prefix + "size-pairing", "%s (%s): %s" % (key, fn.loc, u))
